@@ -55,9 +55,9 @@ def _ksrc_read(tier, crate_dir=None):
     L = 40 if tier == 'thorough' else 16
     hs = []
     for n in range(0, L + 1):
-        for k in (1, 2, 8, 32): hs.append('read_n%d_k%d' % (n, k))
+        for k in (0, 1, 2, 8, 32): hs.append('read_n%d_k%d' % (n, k))
         if n <= 16:
-            for k in (1, 2, 8): hs.append('read_str_n%d_k%d' % (n, k))
+            for k in (0, 1, 2, 8): hs.append('read_str_n%d_k%d' % (n, k))
         if n in (0, 1, 3, 9, 33) and n <= L:
             for k in (2, 8): hs.append('read_deref_n%d_k%d' % (n, k))
     return hs
@@ -80,7 +80,7 @@ KSRC_BUMP = dict(crate='src_proofs', pool=False, label='K-src bump twin', harnes
                  allow=BUMP_ALLOW, expect=BUMP_ALLOW,
                  bounded=lambda tier: 'bump over all (start, end, n) incl. overflowing n, sources of length <= %d; a fixed 11-byte str with 1-4 byte chars' % (12 if tier == 'thorough' else 7))
 KSRC_READ = dict(crate='src_proofs', pool=False, label='K-src Source::read', harnesses=_ksrc_read, configs=[(), ('forbid_unsafe',)],
-                 bounded=lambda tier: 'Source::read on exactly sized buffers of every length 0..=%d, chunk sizes 1/2/8/32, offset fully symbolic over usize (loop-free: complete in offset, bounded in length)' % (40 if tier == 'thorough' else 16))
+                 bounded=lambda tier: 'Source::read on exactly sized buffers of every length 0..=%d, chunk sizes 0/1/2/8/32, offset fully symbolic over usize (loop-free: complete in offset, bounded in length)' % (40 if tier == 'thorough' else 16))
 
 def _ksrc_boundary(tier, crate_dir=None):
     return ['find_boundary_str', 'find_boundary_bytes_n0', 'find_boundary_bytes_n1', 'find_boundary_bytes_n5']
@@ -174,7 +174,7 @@ def klex_suite(label, kinds, defs, covers=(), configs=((),), configs_quick=None,
     return suites
 
 SPEC_KINDS = ('spec', 'specc', 'ctx', 'ctxc', 'skel', 'skelc')
-BYTE_DEFS = ['B1', 'B2', 'B3', 'B4', 'B5', 'B6', 'B7', 'E1']
+BYTE_DEFS = ['B1', 'B2', 'B3', 'B4', 'B5', 'B6', 'B7', 'B8', 'E1']
 SKIP_DEFS = ['S1', 'S2', 'S3']
 STR_DEFS = ['U1', 'U2', 'E2']
 BOUND_NOTE = ('corpus definitions %s; inputs: fully symbolic bytes up to the listed length (spec_*), or a concrete context with '
@@ -183,7 +183,7 @@ BOUND_NOTE = ('corpus definitions %s; inputs: fully symbolic bytes up to the lis
 
 TWINS = {
     'find_boundary_twin': dict(crate='src_proofs', harnesses=['find_boundary_str', 'find_boundary_bytes_n5']),
-    'read_twin': dict(crate='src_proofs', harnesses=['read_n9_k8', 'read_n3_k2', 'read_n1_k1', 'read_str_n9_k8', 'read_str_n3_k2', 'read_n33_k32']),
+    'read_twin': dict(crate='src_proofs', harnesses=['read_n3_k0', 'read_n9_k8', 'read_n3_k2', 'read_n1_k1', 'read_str_n9_k8', 'read_str_n3_k2', 'read_n33_k32']),
     'state_twin': dict(crate='src_proofs', harnesses=['state_n4', 'state_n1']),
     'bump_twin': dict(crate='src_proofs', harnesses=['bump_twin_n3', 'bump_twin_n0', 'bump_twin_n7', 'state_n4'], allow=BUMP_ALLOW,
                       native_candidates=_bump_candidates),
@@ -198,12 +198,18 @@ SRC_TWINS = {
     'Lexer(Clone)::clone': 'state_twin',
 }
 
+def _c20_state_machine():
+    return klex_suite('K-lex read trace (state machine)', SPEC_KINDS, ['K1', 'S2', 'S3', 'B2', 'B5'],
+                      configs=(('state_machine_codegen', 'verif_hooks'),), quick_per_def=5, quick_cost=40,
+                      bounded=BOUND_NOTE % 'K1 (incl. a callback that bumps and skips), S2, S3, B2, B5 under state_machine_codegen with the read-trace monitor')
+
 PLAN = {
     'C01': dict(
         level='model_checking', engine='verus+kani',
         verus=[('v_cg', [{}]), ('v_src', BOTH)],
         twins=SRC_TWINS,
-        kani=klex_suite('K-lex maximal munch', SPEC_KINDS, BYTE_DEFS + SKIP_DEFS + STR_DEFS + ['K1'],
+        kani=klex_suite('K-lex maximal munch', SPEC_KINDS, BYTE_DEFS + SKIP_DEFS + STR_DEFS + ['K1', 'Q2'],
+                        always=['ctx_B5_abcdefghi_q_s0'],
                         covers=['token produced', 'error produced', 'end of input reached', 'token after a skipped region'],
                         bounded=BOUND_NOTE % 'B1-B5, E1, S1, S2, U1, U2, E2, K1')
              + [dict(crate='cg', label='K-cg byte-class rendering', pool=False, module='graph::verif_proofs', crate_dir='logos-codegen',
@@ -238,7 +244,7 @@ PLAN = {
         level='model_checking', engine='verus+kani',
         verus=[('v_src', BOTH)],
         twins=SRC_TWINS,
-        kani=klex_suite('K-lex progress and tiling', SPEC_KINDS, ['B1', 'B2', 'B5', 'E1', 'S1', 'S2', 'S3', 'U1', 'Q1', 'O2'],
+        kani=klex_suite('K-lex progress and tiling', SPEC_KINDS, ['B1', 'B2', 'B5', 'E1', 'S1', 'S2', 'S3', 'U1', 'Q1', 'Q2', 'Q3', 'O2'],
                         covers=['end of input reached', 'token produced', 'token after a skipped region'],
                         bounded=BOUND_NOTE % 'B1, B2, B5, E1, S1, S2, U1, Q1, O2'),
         technique='Verus proof that Iterator::next tiles the input for every lex satisfying the trait contract LEX; bounded model checking (Kani) that derived lex impls satisfy LEX',
@@ -268,7 +274,7 @@ PLAN = {
         verus=[('v_src', BOTH)],
         twins=SRC_TWINS,
         kani=[KSRC_READ, KSRC_STATE, KSRC_BOUNDARY]
-             + klex_suite('K-lex memory safety', SPEC_KINDS, ['B5', 'B7', 'B1', 'B2', 'S2', 'U1', 'E2', 'E1'],
+             + klex_suite('K-lex memory safety', SPEC_KINDS, ['B5', 'B7', 'B8', 'B1', 'B2', 'S2', 'U1', 'E2', 'E1'], always=['ctx_B5_abcdefghi_q_s0'],
                           covers=['token produced'], configs=((), ('forbid_unsafe',)),
                           bounded=BOUND_NOTE % 'B5 (lengths 0..10, crossing the 8-byte batch), B1, B2, S2, U1, E1; exactly sized stack arrays; default and forbid_unsafe builds'),
         technique='Verus proof of the Source::read contract (all lengths, offsets, chunk sizes) and of slice/remainder bounds; CBMC object-bounds checking of the real unsafe code on exactly sized buffers',
@@ -280,7 +286,7 @@ PLAN = {
     ),
     'C06': dict(
         level='model_checking', engine='kani',
-        kani=klex_suite('K-lex both code generators', SPEC_KINDS, ['B1', 'B2', 'B4', 'B5', 'E1', 'S2', 'S3', 'K1', 'U1'],
+        kani=klex_suite('K-lex both code generators', SPEC_KINDS, ['B1', 'B2', 'B4', 'B5', 'B8', 'E1', 'S2', 'S3', 'K1', 'U1', 'Q2'],
                         covers=['token produced', 'error produced'], configs=((), ('state_machine_codegen',)), quick_per_def=9, quick_cost=25,
                         bounded=BOUND_NOTE % 'B1, B2, B4, B5, E1, S2, K1, U1 under the tail-call and the state-machine generator'),
         technique='bounded model checking (Kani/CBMC): the same harnesses against one deterministic specification under both code generators',
@@ -293,7 +299,7 @@ PLAN = {
         level='model_checking', engine='verus+kani',
         verus=[('v_src', BOTH)],
         twins=SRC_TWINS,
-        kani=klex_suite('K-lex partial lexing', ('part',), ['Q1', 'Q2', 'B1', 'B2', 'E1', 'S2', 'U1'],
+        kani=klex_suite('K-lex partial lexing', ('part',), ['Q1', 'Q2', 'Q3', 'B1', 'B2', 'E1', 'S2', 'U1'],
                         covers=['partial lexer committed an item', 'partial lexer asked for more input'], quick_per_def=6,
                         bounded='relational: partial lexer over S[..k] vs one-shot lexer over S, every split point k of concrete contexts with a symbolic continuation byte; definitions Q1 (tests/partial.rs), B1, B2, E1, S2, U1'),
         technique='relational bounded model checking (Kani): partial lexer on every prefix vs the one-shot lexer; Verus proof that a partial None leaves a well-formed empty span',
@@ -401,6 +407,7 @@ PLAN = {
                         covers=['C20 monitor: at least two reads traced', 'token produced'], configs=(('verif_hooks',),), quick_per_def=6, quick_cost=60,
                         always=['ctx_B7__23abcdefghijklmnopqrstuvwx_q_s0', 'ctx_B5_abcdefghijklmnop_q_s0'],
                         bounded=BOUND_NOTE % 'B1, B2, B3, B5, E1, S1, S2, U1, K1 with the ghost read-trace monitor of the verif_hooks feature'),
+        kani_extra=None,
         technique='bounded model checking (Kani) with a ghost read-trace monitor (feature verif_hooks): offsets never decrease within an attempt, never fall below its start, reads <= 4 x bytes examined + 4',
         level_text='Every source read goes through LexerInternal::read, which the hook instruments; the monitor flags are asserted after each explored next(). Bounded.',
         level_note='the linear bound is checked on short inputs only, where a super-linear defect may stay below it; monotonicity is the sharper check.',
@@ -408,3 +415,5 @@ PLAN = {
         explanation='ghost state in src/verif_hooks.rs',
     ),
 }
+
+PLAN['C20']['kani'] = PLAN['C20']['kani'] + _c20_state_machine()
